@@ -9,6 +9,7 @@ import (
 	"github.com/hashicorp/consul/internal/verifmc/c08"
 	"github.com/hashicorp/consul/internal/verifmc/c08r"
 	"github.com/hashicorp/consul/internal/verifmc/c09"
+	"github.com/hashicorp/consul/internal/verifmc/c12"
 	"github.com/hashicorp/consul/internal/verifmc/c19"
 	"github.com/hashicorp/consul/internal/verifmc/ev"
 )
@@ -21,6 +22,7 @@ type checkDef struct {
 var checks = map[string]checkDef{
 	"C08": {"exploration", func(c *ev.Ctx) { c08.Run(c); c08r.Run(c) }},
 	"C09": {"exploration", c09.Run},
+	"C12": {"exploration", c12.Run},
 	"C19": {"exploration", c19.Run},
 }
 
